@@ -16,24 +16,42 @@ pub struct PsCfg {
     pub loans: usize,
     pub slice_len: usize,
     pub nsubs: usize,
+    /// user header type details ("()" / 0 / 1 = none)
+    pub hdr_name: String,
+    pub hdr_size: usize,
+    pub hdr_align: usize,
+    pub history: usize,
 }
 
 #[derive(Clone, Debug)]
 pub enum PsOp {
-    Loan(usize),
-    Write(usize, u64),
-    Send(usize),
-    DropLoan(usize),
+    /// (publisher, elements)
+    Loan(usize, usize),
+    /// (publisher, slot, seed)
+    Write(usize, usize, u64),
+    Send(usize, usize),
+    DropLoan(usize, usize),
+    /// (publisher, elements, seed): iox2_publisher_send_copy / send_slice_copy
+    SendCopy(usize, usize, u64),
     Recv(usize),
     Release(usize, usize),
     Has(usize),
-    Update,
+    Update(usize),
     Counts,
-    DropPub,
+    DropPub(usize),
     DropSub(usize),
     DropAllLoans,
     ReleaseAll(usize),
+    /// one more publisher / subscriber than the program needs (may exceed the service limits)
+    ExtraPub,
+    ExtraSub,
+    /// subscriber whose buffer is larger than the service supports
+    BadSub,
+    /// open/create the same service again with a deviating requirement (side a|b, kind)
+    Probe(bool, usize),
 }
+
+pub const NPROBE: usize = 9;
 
 pub trait PubSide {
     fn alive(&self) -> bool;
@@ -42,6 +60,8 @@ pub trait PubSide {
     /// fills the whole payload of loan `slot` with pattern(seed, i); returns the byte count
     fn write(&mut self, slot: usize, seed: u64) -> usize;
     fn send(&mut self, slot: usize) -> Result<usize, String>;
+    /// one call: copy `n` elements filled with pattern(seed, i) and send them
+    fn send_copy(&mut self, n: usize, seed: u64) -> Result<usize, String>;
     fn drop_loan(&mut self, slot: usize);
     fn update(&mut self) -> Result<(), String>;
     fn drop_port(&mut self);
@@ -59,8 +79,14 @@ pub trait SubSide {
 
 pub trait PsWorld {
     fn make_pub(&self, cfg: &PsCfg) -> Result<Box<dyn PubSide>, String>;
-    fn make_sub(&self, cfg: &PsCfg) -> Result<Box<dyn SubSide>, String>;
+    fn make_sub(&self, cfg: &PsCfg, history_request: Option<usize>) -> Result<Box<dyn SubSide>, String>;
     fn counts(&self) -> (usize, usize);
+    /// subscriber with buffer size cfg.buf + 1: must be refused
+    fn bad_sub(&self, cfg: &PsCfg) -> String;
+    /// kind 0 other payload type, 1 larger min buffer, 2 more publishers, 3 other overflow
+    /// behaviour, 4 service does not exist, 5 create although it exists, 6 more subscribers,
+    /// 7 more borrowed samples, 8 plain open (succeeds)
+    fn probe(&self, cfg: &PsCfg, svc: &str, kind: usize) -> String;
     fn teardown(self: Box<Self>, node_first: bool);
 }
 
@@ -93,7 +119,13 @@ pub fn gen_cfg(rng: &mut Rng) -> PsCfg {
         let (s, a) = LAYOUTS[rng.below(LAYOUTS.len())];
         (s, a, format!("verif_t_{}_{}", s, a), None)
     };
+    const HDRS: [(usize, usize); 6] = [(0, 1), (4, 4), (8, 8), (3, 1), (16, 16), (2, 2)];
+    let (hs, ha) = if typed.is_some() { (0, 1) } else { HDRS[rng.below(HDRS.len())] };
     PsCfg {
+        hdr_name: if hs == 0 { "()".to_string() } else { format!("verif_h_{}_{}", hs, ha) },
+        hdr_size: hs,
+        hdr_align: ha,
+        history: rng.below(3),
         local,
         dynamic,
         size,
@@ -109,53 +141,74 @@ pub fn gen_cfg(rng: &mut Rng) -> PsCfg {
     }
 }
 
+pub const MAX_PUBS: usize = 3;
+pub const MAX_SUBS: usize = 4;
+
 pub fn gen_ops(cfg: &PsCfg, rng: &mut Rng, maxops: usize) -> Vec<PsOp> {
     let n = 6 + rng.below(maxops.max(7) - 6);
     let mut ops = Vec::new();
+    let elems = |rng: &mut Rng| {
+        if cfg.dynamic {
+            // mostly within the initial max slice length, sometimes beyond it
+            if rng.chance(85) {
+                1 + rng.below(cfg.slice_len)
+            } else {
+                cfg.slice_len + 1 + rng.below(3)
+            }
+        } else {
+            1
+        }
+    };
+    // publisher 0 is used most of the time; others only exist after an ExtraPub
+    let pubi = |rng: &mut Rng| if rng.chance(75) { 0 } else { rng.below(MAX_PUBS) };
+    let subi = |rng: &mut Rng| if rng.chance(80) { rng.below(cfg.nsubs) } else { rng.below(MAX_SUBS) };
     for _ in 0..n {
         let r = rng.below(100);
-        let op = if r < 24 {
-            let k = if cfg.dynamic {
-                // mostly within the initial max slice length, sometimes beyond it
-                if rng.chance(85) {
-                    1 + rng.below(cfg.slice_len)
-                } else {
-                    cfg.slice_len + 1 + rng.below(3)
-                }
-            } else {
-                1
-            };
-            PsOp::Loan(k)
-        } else if r < 34 {
-            PsOp::Write(rng.below(4), rng.next() % 1000)
-        } else if r < 54 {
-            PsOp::Send(rng.below(4))
-        } else if r < 58 {
-            PsOp::DropLoan(rng.below(4))
-        } else if r < 80 {
-            PsOp::Recv(rng.below(cfg.nsubs))
-        } else if r < 88 {
-            PsOp::Release(rng.below(cfg.nsubs), rng.below(4))
+        let op = if r < 20 {
+            PsOp::Loan(pubi(rng), elems(rng))
+        } else if r < 28 {
+            PsOp::Write(pubi(rng), rng.below(4), rng.next() % 1000)
+        } else if r < 44 {
+            PsOp::Send(pubi(rng), rng.below(4))
+        } else if r < 50 {
+            PsOp::SendCopy(pubi(rng), elems(rng), rng.next() % 1000)
+        } else if r < 53 {
+            PsOp::DropLoan(pubi(rng), rng.below(4))
+        } else if r < 75 {
+            PsOp::Recv(subi(rng))
+        } else if r < 81 {
+            PsOp::Release(subi(rng), rng.below(4))
+        } else if r < 84 {
+            PsOp::Has(subi(rng))
+        } else if r < 87 {
+            PsOp::Update(pubi(rng))
+        } else if r < 90 {
+            PsOp::ExtraPub
         } else if r < 93 {
-            PsOp::Has(rng.below(cfg.nsubs))
-        } else if r < 96 {
-            PsOp::Update
+            PsOp::ExtraSub
+        } else if r < 94 {
+            PsOp::BadSub
+        } else if r < 98 {
+            PsOp::Probe(rng.chance(50), rng.below(NPROBE))
         } else {
             PsOp::Counts
         };
         // a loan is usually written and sent right away so that data flows
-        let follow = matches!(op, PsOp::Loan(_)) && rng.chance(70);
+        let follow = if let PsOp::Loan(p, _) = &op { if rng.chance(70) { Some(*p) } else { None } } else { None };
         ops.push(op);
-        if follow {
-            ops.push(PsOp::Write(rng.below(4), rng.next() % 1000));
+        if let Some(p) = follow {
+            ops.push(PsOp::Write(p, rng.below(4), rng.next() % 1000));
             if rng.chance(80) {
-                ops.push(PsOp::Send(rng.below(4)));
+                ops.push(PsOp::Send(p, rng.below(4)));
             }
         }
     }
     // teardown in a generated order
-    let mut tail = vec![PsOp::DropPub, PsOp::DropAllLoans];
-    for i in 0..cfg.nsubs {
+    let mut tail = vec![PsOp::DropAllLoans];
+    for i in 0..MAX_PUBS {
+        tail.push(PsOp::DropPub(i));
+    }
+    for i in 0..MAX_SUBS {
         tail.push(PsOp::DropSub(i));
         tail.push(PsOp::ReleaseAll(i));
     }
@@ -198,60 +251,101 @@ pub fn run_mode(mode: &str, a: Api, b: Api, cfg: &PsCfg, ops: &[PsOp], case: usi
         Err(e) => e.clone(),
     });
     if let (Ok(wa), Ok(wb)) = (wa, wb) {
-        let mut publ = match wa.make_pub(cfg) {
+        let mut pubs: Vec<Box<dyn PubSide>> = Vec::new();
+        let mut subs: Vec<Box<dyn SubSide>> = Vec::new();
+        match wa.make_pub(cfg) {
             Ok(p) => {
                 line("make_pub".into(), "ok".into());
-                Some(p)
+                pubs.push(p);
             }
-            Err(e) => {
-                line("make_pub".into(), e);
-                None
-            }
-        };
-        let mut subs: Vec<Option<Box<dyn SubSide>>> = Vec::new();
+            Err(e) => line("make_pub".into(), e),
+        }
         for i in 0..cfg.nsubs {
-            match wb.make_sub(cfg) {
+            match wb.make_sub(cfg, None) {
                 Ok(s) => {
                     line(format!("make_sub {}", i), "ok".into());
-                    subs.push(Some(s));
+                    subs.push(s);
                 }
-                Err(e) => {
-                    line(format!("make_sub {}", i), e);
-                    subs.push(None);
-                }
+                Err(e) => line(format!("make_sub {}", i), e),
             }
         }
+        let mut late = 0usize;
         for op in ops {
             match op {
-                PsOp::Loan(n) => {
-                    let obs = match publ.as_mut() {
+                PsOp::ExtraPub => {
+                    let obs = if pubs.len() >= MAX_PUBS {
+                        "skip".to_string()
+                    } else {
+                        match wa.make_pub(cfg) {
+                            Ok(p) => {
+                                pubs.push(p);
+                                "ok".to_string()
+                            }
+                            Err(e) => e,
+                        }
+                    };
+                    line("extrapub".into(), obs);
+                }
+                PsOp::ExtraSub => {
+                    // late joiners alternate between the default history request and an explicit one
+                    late += 1;
+                    let hr = if late % 2 == 0 { Some(late % 3) } else { None };
+                    let obs = if subs.len() >= MAX_SUBS {
+                        "skip".to_string()
+                    } else {
+                        match wb.make_sub(cfg, hr) {
+                            Ok(p) => {
+                                subs.push(p);
+                                "ok".to_string()
+                            }
+                            Err(e) => e,
+                        }
+                    };
+                    line(format!("extrasub {:?}", hr).replace(' ', ""), obs);
+                }
+                PsOp::BadSub => line("badsub".into(), wb.bad_sub(cfg)),
+                PsOp::Probe(side_a, kind) => {
+                    let obs = if *side_a { wa.probe(cfg, &svc, *kind) } else { wb.probe(cfg, &svc, *kind) };
+                    line(format!("probe {} {}", if *side_a { "a" } else { "b" }, kind), obs);
+                }
+                PsOp::Loan(pi, n) => {
+                    let obs = match pubs.get_mut(*pi) {
                         Some(p) if p.alive() => res(p.loan(*n).map(|_| "")),
                         _ => "skip".into(),
                     };
-                    line(format!("loan {}", n), obs);
+                    line(format!("loan {} {}", pi, n), obs);
                 }
-                PsOp::Write(s, seed) => {
-                    let obs = match publ.as_mut() {
+                PsOp::Write(pi, s, seed) => {
+                    let obs = match pubs.get_mut(*pi) {
                         Some(p) if p.nloans() > 0 => {
                             let slot = s % p.nloans();
                             format!("slot={} bytes={}", slot, p.write(slot, *seed))
                         }
                         _ => "skip".into(),
                     };
-                    line(format!("write {} {}", s, seed), obs);
+                    line(format!("write {} {} {}", pi, s, seed), obs);
                 }
-                PsOp::Send(s) => {
-                    let obs = match publ.as_mut() {
+                PsOp::Send(pi, s) => {
+                    let obs = match pubs.get_mut(*pi) {
                         Some(p) if p.nloans() > 0 => {
                             let slot = s % p.nloans();
                             res(p.send(slot))
                         }
                         _ => "skip".into(),
                     };
-                    line(format!("send {}", s), obs);
+                    line(format!("send {} {}", pi, s), obs);
                 }
-                PsOp::DropLoan(s) => {
-                    let obs = match publ.as_mut() {
+                PsOp::SendCopy(pi, n, seed) => {
+                    // with a user header the C send_copy functions cannot initialise it (the subscriber
+                    // would read uninitialised memory in either API): only exercised without one
+                    let obs = match pubs.get_mut(*pi) {
+                        Some(p) if p.alive() && cfg.hdr_size == 0 => res(p.send_copy(*n, *seed)),
+                        _ => "skip".into(),
+                    };
+                    line(format!("sendcopy {} {} {}", pi, n, seed), obs);
+                }
+                PsOp::DropLoan(pi, s) => {
+                    let obs = match pubs.get_mut(*pi) {
                         Some(p) if p.nloans() > 0 => {
                             let slot = s % p.nloans();
                             p.drop_loan(slot);
@@ -259,11 +353,11 @@ pub fn run_mode(mode: &str, a: Api, b: Api, cfg: &PsCfg, ops: &[PsOp], case: usi
                         }
                         _ => "skip".into(),
                     };
-                    line(format!("droploan {}", s), obs);
+                    line(format!("droploan {} {}", pi, s), obs);
                 }
                 PsOp::DropAllLoans => {
                     let mut n = 0;
-                    if let Some(p) = publ.as_mut() {
+                    for p in pubs.iter_mut() {
                         while p.nloans() > 0 {
                             p.drop_loan(0);
                             n += 1;
@@ -272,7 +366,7 @@ pub fn run_mode(mode: &str, a: Api, b: Api, cfg: &PsCfg, ops: &[PsOp], case: usi
                     line("dropallloans".into(), format!("dropped={}", n));
                 }
                 PsOp::Recv(i) => {
-                    let obs = match subs[*i].as_mut() {
+                    let obs = match subs.get_mut(*i) {
                         Some(s) if s.alive() => match s.recv() {
                             Ok(Some(d)) => d,
                             Ok(None) => "none".into(),
@@ -283,7 +377,7 @@ pub fn run_mode(mode: &str, a: Api, b: Api, cfg: &PsCfg, ops: &[PsOp], case: usi
                     line(format!("recv {}", i), obs);
                 }
                 PsOp::Release(i, s) => {
-                    let obs = match subs[*i].as_mut() {
+                    let obs = match subs.get_mut(*i) {
                         Some(sb) if sb.nheld() > 0 => {
                             let slot = s % sb.nheld();
                             sb.release(slot);
@@ -295,7 +389,7 @@ pub fn run_mode(mode: &str, a: Api, b: Api, cfg: &PsCfg, ops: &[PsOp], case: usi
                 }
                 PsOp::ReleaseAll(i) => {
                     let mut n = 0;
-                    if let Some(sb) = subs[*i].as_mut() {
+                    if let Some(sb) = subs.get_mut(*i) {
                         while sb.nheld() > 0 {
                             sb.release(0);
                             n += 1;
@@ -304,36 +398,36 @@ pub fn run_mode(mode: &str, a: Api, b: Api, cfg: &PsCfg, ops: &[PsOp], case: usi
                     line(format!("releaseall {}", i), format!("released={}", n));
                 }
                 PsOp::Has(i) => {
-                    let obs = match subs[*i].as_mut() {
+                    let obs = match subs.get_mut(*i) {
                         Some(s) if s.alive() => res(s.has()),
                         _ => "skip".into(),
                     };
                     line(format!("has {}", i), obs);
                 }
-                PsOp::Update => {
-                    let obs = match publ.as_mut() {
+                PsOp::Update(pi) => {
+                    let obs = match pubs.get_mut(*pi) {
                         Some(p) if p.alive() => res(p.update().map(|_| "")),
                         _ => "skip".into(),
                     };
-                    line("update".into(), obs);
+                    line(format!("update {}", pi), obs);
                 }
                 PsOp::Counts => {
                     let (pa, sa) = wa.counts();
                     let (pb, sb) = wb.counts();
                     line("counts".into(), format!("a:p={},s={} b:p={},s={}", pa, sa, pb, sb));
                 }
-                PsOp::DropPub => {
-                    let obs = match publ.as_mut() {
+                PsOp::DropPub(pi) => {
+                    let obs = match pubs.get_mut(*pi) {
                         Some(p) if p.alive() => {
                             p.drop_port();
                             "dropped".to_string()
                         }
                         _ => "skip".into(),
                     };
-                    line("droppub".into(), obs);
+                    line(format!("droppub {}", pi), obs);
                 }
                 PsOp::DropSub(i) => {
-                    let obs = match subs[*i].as_mut() {
+                    let obs = match subs.get_mut(*i) {
                         Some(s) if s.alive() => {
                             s.drop_port();
                             "dropped".to_string()
@@ -344,7 +438,7 @@ pub fn run_mode(mode: &str, a: Api, b: Api, cfg: &PsCfg, ops: &[PsOp], case: usi
                 }
             }
         }
-        drop(publ);
+        drop(pubs);
         drop(subs);
         wa.teardown(node_first.0);
         wb.teardown(node_first.1);
@@ -360,7 +454,7 @@ pub fn run_case(case: usize, rng: &mut Rng, maxops: usize) -> usize {
     let ops = gen_ops(&cfg, rng, maxops);
     let nf = (rng.chance(50), rng.chance(50));
     println!(
-        "C {} pubsub local={} dynamic={} size={} align={} type={} typed={} buf={} borrow={} overflow={} loans={} slice_len={} nsubs={} nops={}",
+        "C {} pubsub local={} dynamic={} size={} align={} type={} typed={} buf={} borrow={} overflow={} loans={} slice_len={} nsubs={} hdr={}/{} history={} nops={}",
         case,
         cfg.local,
         cfg.dynamic,
@@ -374,6 +468,9 @@ pub fn run_case(case: usize, rng: &mut Rng, maxops: usize) -> usize {
         cfg.loans,
         cfg.slice_len,
         cfg.nsubs,
+        cfg.hdr_size,
+        cfg.hdr_align,
+        cfg.history,
         ops.len()
     );
     let mut n = 0;
